@@ -12,8 +12,11 @@ SPEC = dict(
                 "LP64 x86_64 configuration): FT_MulFix (= the unhinted scale step coord*scale) equal for all operands incl. wrap-around; "
                 "FT_DivFix / FT_MulDiv equal modulo 2^32 for all operands and equal whenever FreeType's 64-bit result fits an i32 "
                 "(refuted beyond: witnesses); FT_MulDiv_No_Round, and RoundState::round vs Round_To_Grid/Half_Grid/Double_Grid/Down/Up/Super/"
-                "Super_45/None (compensation 0): equal whenever skrifa's unchecked i32 arithmetic does not trap, with the trap-free domain made "
-                "explicit (|d| <= 2^31-128 for the grid modes; all state components <= 2^28 for Super/Super45); TT_MulFix14 equal for all "
+                "Super_45/None (compensation 0): skrifa's kernels (explicitly wrapping i32 arithmetic since /repo fb7fa4b — the wrapping "
+                "reading is the model) equal FreeType's 64-bit arithmetic on the wrap-free domain (no intermediate i32 result wraps), which "
+                "contains |d| <= 2^31-128 for the grid modes, all state components <= 2^28 for Super/Super45, and every mul_div_no_round "
+                "triple without i32::MIN whose quotient fits; beyond it they diverge (refuted witnesses at the i32 limits, replayed on the "
+                "real kernels); TT_MulFix14 equal for all "
                 "operands; F26Dot6::round = FT_PIX_ROUND, Fixed::floor = FT_FloorFix, Fixed::round vs FT_RoundFix (refuted on negative ties). "
                 "Both models are tied to the real code on every run: skrifa kernels through the verif hooks and FreeType through FFI "
                 "(FT_MulFix/FT_DivFix/FT_MulDiv/FT_RoundFix/FT_CeilFix/FT_FloorFix) on ~65k boundary-dense/random tuples evaluated with vm_compute. "
@@ -45,7 +48,7 @@ SPEC = dict(
                  "engine compensation != 0 in Round_* (skrifa fixes it to 0; FreeType's compensations are 0 for all three colours too)",
                  "variable fonts (outside this property's quantifier); auto-hinter (other property)",
                  "fonts outside font-test-data"],
-    assumptions=["Rust integer semantics as in coq/Lib/RustInt.v; the harness builds skrifa with overflow checks, the release reading (wrapping) is related to it by the *_refines theorems",
+    assumptions=["Rust integer semantics as in coq/Lib/RustInt.v; the hinting kernels wrap explicitly (wrapping_add/neg/...), so one model serves every build profile; the trapping evaluation [st = true] only defines the wrap-free domain",
                  "C integer semantics of the GCC/clang LP64 x86_64 build: long = 64 bits, int = 32 bits, unsigned arithmetic wraps, unsigned->signed conversion is modular, >> on signed values is arithmetic",
                  "FreeType 2.12.1 sources as vendored by freetype-sys 0.17.0 are what is linked (checked indirectly: six exported functions are compared with their model on every run)"],
     trusted_base=["FreeType itself is the specification of this property: nothing is proved about FreeType beyond the eight exported/unexported kernels listed under `modelled`"],
